@@ -143,7 +143,14 @@ def analyse(ctx, run, bools, reports):
     # --- row area ends where the statistics start; statistics, text and JSON recomputed from the rows
     nstats = 0
     if not missing_labels:
-        if run.main_error or run.json_text is None:
+        cols = [{r['outs'][j] for r in rows} for j in range(len(outputs))] if rows else []
+        flat_big = [outputs[j] for j, c in enumerate(cols) if len(c) == 1 and abs(float(next(iter(c)))) >= 2 ** 52]
+        if run.main_error and 'IndexError: index -9223372036854775808' in run.main_error and flat_big:
+            ctx.violate('property', 'summary:histogram-constant-large-column',
+                        f'the histogram step failed on the constant column {flat_big[0]} = {next(iter(cols[outputs.index(flat_big[0])]))} '
+                        f'({len(rows)} row(s)): {run.main_error}; no JSON summary', inp=_inp(run), expected='text and JSON statistics of the rows',
+                        observed=run.main_error)
+        elif run.main_error or run.json_text is None:
             ctx.violate('property', 'summary:crash', f'the summary step failed although every output was found: {run.main_error}', inp=_inp(run),
                         observed=run.main_error)
         elif rows:
